@@ -31,7 +31,7 @@ def program_set(rng, ngen):
     return c
 
 
-def run_programs(rng, ngen, versions=None, host=None, path=None, names=None):
+def run_programs(rng, ngen, versions=None, host=None, path=None, names=None, via_std=False):
     """yields (version, name, oracle_result, impl_result)"""
     progs = program_set(rng, ngen)
     oracles = {}
@@ -47,6 +47,8 @@ def run_programs(rng, ngen, versions=None, host=None, path=None, names=None):
                 kw = {"pyc": o["pyc"]}
                 if path:
                     kw["path"] = path
+                if via_std:
+                    kw["via_std"] = True
                 im = w.r("load_pyc", **kw)
                 yield v, name, o, im
     finally:
